@@ -12,7 +12,7 @@ import (
 func init() {
 	register(&Prop{
 		ID:          "C11",
-		Explanation: "Decides the structure of sign-out: SignOut issues its success redirect only on paths where ClearSessionCookie returned nil; Manager.Clear emits the ticket-cookie deletion on every path, returns nil for an undecodable ticket only when the error is http.ErrNoCookie, and otherwise returns clearSession's result, which is the Store.Clear error passed up unchanged through the closure, the redis store (non-nil whenever Client.Del's error is non-nil) and the client wrappers; the cookie store's Clear ranges over every cookie of the request and, for each whose name matches a pattern compiled from regexp.QuoteMeta(Cookie.Name) plus an optional _<digits> suffix (a constant accepted/rejected on a fixed probe set, agreeing with splitCookieName's format), sets a deletion cookie under the presented name; setters and deleters of ticket, CSRF and session cookies use the same name expression and the same options object.",
+		Explanation: "Decides the structure of sign-out: SignOut issues its success redirect only on paths where ClearSessionCookie returned nil; Manager.Clear emits the ticket-cookie deletion on every path, returns nil for an undecodable ticket only when the error is http.ErrNoCookie, and otherwise returns clearSession's result, which is the Store.Clear error passed up unchanged through the closure, the redis store (non-nil whenever Client.Del's error is non-nil) and the client wrappers; the cookie store's Clear ranges over every cookie of the request and, for each whose name matches a pattern compiled from regexp.QuoteMeta(Cookie.Name) plus an optional _<digits> suffix (a constant accepted/rejected on a fixed probe set, agreeing with splitCookieName's format), sets a deletion cookie under the presented name; setters and deleters of ticket, CSRF and session cookies use the same name expression and the same options object. Added during the build: a request that waited for the refresh lock writes the session back only after a successful reload under the lock, so a signed-out session is not re-created (R5, shared with C12.R2).",
 		NotDecided:  "replay histories against a live store; truncated split names for 251-256 byte cookie names (arithmetic); what a browser does with the deletions.",
 		Run:         runC11,
 	})
@@ -23,174 +23,12 @@ func runC11(c *Ctx) {
 	r.Rule("R1-redirect-after-clear", "SignOut: success redirect only after ClearSessionCookie()==nil", 2)
 	r.Rule("R2-clear-propagates", "Manager.Clear always clears the cookie and returns the store-delete error unchanged up the chain", 9)
 	r.Rule("R3-cookie-store-clear", "cookie store Clear sweeps all presented cookies matching ^QuoteMeta(name)(_\\d+)?$ and deletes each under its presented name", 3)
+	r.Rule("R5-no-resurrection", "a request that waited for the refresh lock writes the session back only after reloading it successfully under the lock, so a session deleted by sign-out in between is not re-created (shared with C12.R2)", 1)
 	r.Rule("R4-same-name-opts", "setters and deleters agree on cookie name expression and options", 5)
 
-	// ---- R1 ---------------------------------------------------------------------------------
-	rule := "R1-redirect-after-clear"
-	signOut := c.Fn(rule, "(*main.OAuthProxy).SignOut")
-	clear := c.Fn(rule, "(*main.OAuthProxy).ClearSessionCookie")
-	storeClear := c.Method(rule, "pkg/apis/sessions.SessionStore.Clear")
-	redirect := c.StdFunc(rule, "net/http.Redirect")
-	if signOut != nil && clear != nil && storeClear != nil && redirect != nil {
-		n := 0
-		c.Walk(rule, signOut, func(p *walk.Path) {
-			for _, rd := range p.FindTop(walk.Static(redirect), p.End()) {
-				n++
-				key := "redirect|" + fnKey(signOut)
-				if _, ok := Has(p, rd.Idx, Need{M: walk.Or(walk.Static(clear), walk.Invoke(c.P, storeClear)), Idx: -1, Out: ErrNil}); ok {
-					c.ok(rule, key, rd.In, "ClearSessionCookie(rw, req)==nil")
-				} else {
-					c.bad(rule, key, rd.In, "sign-out answers with the success redirect on a path where clearing the session did not succeed", p, rd.Idx)
-				}
-			}
-		})
-		if n == 0 {
-			c.R.Unknown(rule, "redirect|none", c.P.Pos(signOut.Pos()), "SignOut performs no redirect")
-		}
-		// ClearSessionCookie returns the store's error
-		c.checkPropagation(rule, clear, walk.Invoke(c.P, storeClear), "sessionStore.Clear")
-	}
-
-	// ---- R2 ---------------------------------------------------------------------------------
-	rule = "R2-clear-propagates"
-	mclear := c.Fn(rule, "(*pkg/sessions/persistence.Manager).Clear")
-	dtfr := c.Fn(rule, "pkg/sessions/persistence.decodeTicketFromRequest")
-	clearCookie := c.Fn(rule, "(*pkg/sessions/persistence.ticket).clearCookie")
-	clearSession := c.Fn(rule, "(*pkg/sessions/persistence.ticket).clearSession")
-	mclear1 := c.Fn(rule, "(*pkg/sessions/persistence.Manager).Clear$1")
-	pstoreClear := c.Method(rule, "pkg/sessions/persistence.Store.Clear")
-	redisClear := c.Fn(rule, "(*pkg/sessions/redis.SessionStore).Clear")
-	clientDel := c.Method(rule, "pkg/sessions/redis.Client.Del")
-	idF := c.Field(rule, "pkg/sessions/persistence.ticket.id")
-	if mclear != nil && dtfr != nil && clearCookie != nil && clearSession != nil && mclear1 != nil && pstoreClear != nil && redisClear != nil && clientDel != nil && idF != nil {
-		c.Walk(rule, mclear, func(p *walk.Path) {
-			if _, ok := p.Exit.(*ssa.Return); !ok {
-				return
-			}
-			at := p.End()
-			key := "always-clears-cookie|" + fnKey(mclear)
-			if _, ok := Has(p, at, Need{M: walk.Static(clearCookie), Out: Called}); ok {
-				c.ok(rule, key, p.Exit, "ticket.clearCookie is called on every path")
-			} else {
-				c.bad(rule, key, p.Exit, "Manager.Clear returns on a path that never emits the ticket-cookie deletion", p, at)
-			}
-			ret, _ := p.ReturnDV(0)
-			dt, ok := Has(p, at, Need{M: walk.Static(dtfr), Out: Called})
-			if !ok {
-				c.bad(rule, "decodes|"+fnKey(mclear), p.Exit, "Manager.Clear no longer decodes the ticket from the request", p, at)
-				return
-			}
-			isNil, known := p.ResultNil(dt.DV(), 1, at)
-			if known && isNil {
-				key := "store-delete-result|" + fnKey(mclear)
-				cs, ok := extractOfCall(p, ret, 0)
-				if ok && cs.C.StaticCallee() == clearSession && ResultIs(p, p.Arg(cs, 0), dt, 0) {
-					c.ok(rule, key, p.Exit, "returns ticket.clearSession(...) for the decoded ticket")
-				} else {
-					c.bad(rule, key, p.Exit, "with a decodable ticket Manager.Clear does not return the result of deleting that ticket's stored session", p, at)
-				}
-				return
-			}
-			// decode failed: nil only for http.ErrNoCookie
-			key = "undecodable|" + fnKey(mclear)
-			if DefinitelyNil(p, ret, at) {
-				okNoCookie := false
-				for _, a := range p.Atoms(at) {
-					if b, ok := a.DV.V.(*ssa.BinOp); ok && !a.IsNil && a.Val {
-						for _, side := range []ssa.Value{b.X, b.Y} {
-							if globalLoad(side) == "net/http.ErrNoCookie" {
-								okNoCookie = true
-							}
-						}
-					}
-					if call, ok := a.DV.V.(*ssa.Call); ok && !a.IsNil && a.Val && isStd(&call.Call, "errors", "Is") && globalLoad(call.Call.Args[1]) == "net/http.ErrNoCookie" {
-						okNoCookie = true
-					}
-				}
-				if okNoCookie {
-					c.ok(rule, key+"|no-cookie", p.Exit, "nil only because the request carried no session cookie")
-				} else {
-					c.bad(rule, key, p.Exit, "Manager.Clear reports success although the ticket could not be decoded for a reason other than a missing cookie (the stored session survives)", p, at)
-				}
-			} else if definitelyNonNil(p, ret, at) {
-				c.ok(rule, key+"|error", p.Exit, "undecodable ticket is an error")
-			} else {
-				c.bad(rule, key, p.Exit, "undecodable ticket: result is neither nil-for-no-cookie nor a definite error", p, at)
-			}
-		})
-		// clearSession returns clearer(t.id)
-		c.Walk(rule, clearSession, func(p *walk.Path) {
-			ret, ok := p.ReturnDV(0)
-			if !ok {
-				return
-			}
-			key := "returns-clearer|" + fnKey(clearSession)
-			cl, ok := extractOfCall(p, ret, 0)
-			if ok && p.Resolve(p.StepOp(cl.C.Value, cl.Step)).V == clearSession.Params[1] && fieldLoadOn(p, p.Arg(cl, 0), idF, walk.DV{V: clearSession.Params[0]}) {
-				c.ok(rule, key, p.Exit, "returns clearer(t.id)")
-			} else {
-				c.bad(rule, key, p.Exit, "clearSession does not return clearer(t.id)", p, p.End())
-			}
-		})
-		// closure: returns Store.Clear(ctx, key)
-		c.Walk(rule, mclear1, func(p *walk.Path) {
-			ret, ok := p.ReturnDV(0)
-			if !ok {
-				return
-			}
-			key := "closure-returns-store-clear|" + fnKey(mclear1)
-			cl, ok := extractOfCall(p, ret, 0)
-			if ok && walk.Invoke(c.P, pstoreClear)(p, cl) && p.Resolve(p.Arg(cl, 1)).V == mclear1.Params[0] {
-				c.ok(rule, key, p.Exit, "returns m.Store.Clear(ctx, key)")
-			} else {
-				c.bad(rule, key, p.Exit, "the clear closure does not return Store.Clear(ctx, key)", p, p.End())
-			}
-		})
-		// every persistence.Store.Clear implementation propagates its backend's delete error
-		for _, impl := range c.P.Implementations(pstoreClear) {
-			if !c.P.InModule(impl) {
-				continue
-			}
-			if n := c.checkPropagation(rule, impl, walk.Invoke(c.P, clientDel), "Client.Del"); n == 0 {
-				c.R.Unknown(rule, "propagates|"+fnKey(impl), c.P.Pos(impl.Pos()), "store Clear never calls Client.Del")
-			}
-		}
-		// client wrappers return the command's error
-		for _, impl := range c.P.Implementations(clientDel) {
-			if !c.P.InModule(impl) {
-				continue
-			}
-			impl := impl
-			c.Walk(rule, impl, func(p *walk.Path) {
-				ret, ok := p.ReturnDV(0)
-				if !ok {
-					return
-				}
-				key := "wrapper-returns-cmd-err|" + fnKey(impl)
-				cl, ok := extractOfCall(p, ret, 0)
-				okDel := false
-				if ok && cl.C.StaticCallee() != nil && cl.C.StaticCallee().Name() == "Err" {
-					recv := p.Resolve(p.Arg(cl, 0)).V
-					for {
-						if fa, ok := recv.(*ssa.FieldAddr); ok { // promoted method through the embedded baseCmd
-							recv = fa.X
-							continue
-						}
-						break
-					}
-					if del, ok := recv.(*ssa.Call); ok && del.Call.StaticCallee() != nil && del.Call.StaticCallee().Name() == "Del" {
-						okDel = true
-					}
-				}
-				if okDel {
-					c.ok(rule, key, p.Exit, "returns Del(ctx, key).Err()")
-				} else {
-					c.bad(rule, key, p.Exit, "redis client wrapper does not return the DEL command's error", p, p.End())
-				}
-			})
-		}
-	}
-
+	runSignOutRule(c, "R1-redirect-after-clear")
+	runManagerClearRule(c, "R2-clear-propagates")
+	c.checkRefreshProtocol("R5-no-resurrection", c.c12Anchors("R5-no-resurrection"))
 	runC11R3R4(c, "R3-cookie-store-clear", "R4-same-name-opts")
 }
 
@@ -439,4 +277,174 @@ func clearPatternOK(v ssa.Value, nameF interface{ Name() string }) (bool, string
 		}
 	}
 	return true, ""
+}
+
+// runSignOutRule: SignOut answers success only after the clear succeeded (C11.R1, also C13).
+func runSignOutRule(c *Ctx, rule string) {
+	signOut := c.Fn(rule, "(*main.OAuthProxy).SignOut")
+	clear := c.Fn(rule, "(*main.OAuthProxy).ClearSessionCookie")
+	storeClear := c.Method(rule, "pkg/apis/sessions.SessionStore.Clear")
+	redirect := c.StdFunc(rule, "net/http.Redirect")
+	if signOut != nil && clear != nil && storeClear != nil && redirect != nil {
+		n := 0
+		c.Walk(rule, signOut, func(p *walk.Path) {
+			for _, rd := range p.FindTop(walk.Static(redirect), p.End()) {
+				n++
+				key := "redirect|" + fnKey(signOut)
+				if _, ok := Has(p, rd.Idx, Need{M: walk.Or(walk.Static(clear), walk.Invoke(c.P, storeClear)), Idx: -1, Out: ErrNil}); ok {
+					c.ok(rule, key, rd.In, "ClearSessionCookie(rw, req)==nil")
+				} else {
+					c.bad(rule, key, rd.In, "sign-out answers with the success redirect on a path where clearing the session did not succeed", p, rd.Idx)
+				}
+			}
+		})
+		if n == 0 {
+			c.R.Unknown(rule, "redirect|none", c.P.Pos(signOut.Pos()), "SignOut performs no redirect")
+		}
+		// ClearSessionCookie returns the store's error
+		c.checkPropagation(rule, clear, walk.Invoke(c.P, storeClear), "sessionStore.Clear")
+	}
+
+}
+
+// runManagerClearRule: Manager.Clear always expires the cookie and hands the store's delete error up unchanged (C11.R2, also C12).
+func runManagerClearRule(c *Ctx, rule string) {
+	mclear := c.Fn(rule, "(*pkg/sessions/persistence.Manager).Clear")
+	dtfr := c.Fn(rule, "pkg/sessions/persistence.decodeTicketFromRequest")
+	clearCookie := c.Fn(rule, "(*pkg/sessions/persistence.ticket).clearCookie")
+	clearSession := c.Fn(rule, "(*pkg/sessions/persistence.ticket).clearSession")
+	mclear1 := c.Fn(rule, "(*pkg/sessions/persistence.Manager).Clear$1")
+	pstoreClear := c.Method(rule, "pkg/sessions/persistence.Store.Clear")
+	redisClear := c.Fn(rule, "(*pkg/sessions/redis.SessionStore).Clear")
+	clientDel := c.Method(rule, "pkg/sessions/redis.Client.Del")
+	idF := c.Field(rule, "pkg/sessions/persistence.ticket.id")
+	if mclear != nil && dtfr != nil && clearCookie != nil && clearSession != nil && mclear1 != nil && pstoreClear != nil && redisClear != nil && clientDel != nil && idF != nil {
+		c.Walk(rule, mclear, func(p *walk.Path) {
+			if _, ok := p.Exit.(*ssa.Return); !ok {
+				return
+			}
+			at := p.End()
+			key := "always-clears-cookie|" + fnKey(mclear)
+			if _, ok := Has(p, at, Need{M: walk.Static(clearCookie), Out: Called}); ok {
+				c.ok(rule, key, p.Exit, "ticket.clearCookie is called on every path")
+			} else {
+				c.bad(rule, key, p.Exit, "Manager.Clear returns on a path that never emits the ticket-cookie deletion", p, at)
+			}
+			ret, _ := p.ReturnDV(0)
+			dt, ok := Has(p, at, Need{M: walk.Static(dtfr), Out: Called})
+			if !ok {
+				c.bad(rule, "decodes|"+fnKey(mclear), p.Exit, "Manager.Clear no longer decodes the ticket from the request", p, at)
+				return
+			}
+			isNil, known := p.ResultNil(dt.DV(), 1, at)
+			if known && isNil {
+				key := "store-delete-result|" + fnKey(mclear)
+				cs, ok := extractOfCall(p, ret, 0)
+				if ok && cs.C.StaticCallee() == clearSession && ResultIs(p, p.Arg(cs, 0), dt, 0) {
+					c.ok(rule, key, p.Exit, "returns ticket.clearSession(...) for the decoded ticket")
+				} else {
+					c.bad(rule, key, p.Exit, "with a decodable ticket Manager.Clear does not return the result of deleting that ticket's stored session", p, at)
+				}
+				return
+			}
+			// decode failed: nil only for http.ErrNoCookie
+			key = "undecodable|" + fnKey(mclear)
+			if DefinitelyNil(p, ret, at) {
+				okNoCookie := false
+				for _, a := range p.Atoms(at) {
+					if b, ok := a.DV.V.(*ssa.BinOp); ok && !a.IsNil && a.Val {
+						for _, side := range []ssa.Value{b.X, b.Y} {
+							if globalLoad(side) == "net/http.ErrNoCookie" {
+								okNoCookie = true
+							}
+						}
+					}
+					if call, ok := a.DV.V.(*ssa.Call); ok && !a.IsNil && a.Val && isStd(&call.Call, "errors", "Is") && globalLoad(call.Call.Args[1]) == "net/http.ErrNoCookie" {
+						okNoCookie = true
+					}
+				}
+				if okNoCookie {
+					c.ok(rule, key+"|no-cookie", p.Exit, "nil only because the request carried no session cookie")
+				} else {
+					c.bad(rule, key, p.Exit, "Manager.Clear reports success although the ticket could not be decoded for a reason other than a missing cookie (the stored session survives)", p, at)
+				}
+			} else if definitelyNonNil(p, ret, at) {
+				c.ok(rule, key+"|error", p.Exit, "undecodable ticket is an error")
+			} else {
+				c.bad(rule, key, p.Exit, "undecodable ticket: result is neither nil-for-no-cookie nor a definite error", p, at)
+			}
+		})
+		// clearSession returns clearer(t.id)
+		c.Walk(rule, clearSession, func(p *walk.Path) {
+			ret, ok := p.ReturnDV(0)
+			if !ok {
+				return
+			}
+			key := "returns-clearer|" + fnKey(clearSession)
+			cl, ok := extractOfCall(p, ret, 0)
+			if ok && p.Resolve(p.StepOp(cl.C.Value, cl.Step)).V == clearSession.Params[1] && fieldLoadOn(p, p.Arg(cl, 0), idF, walk.DV{V: clearSession.Params[0]}) {
+				c.ok(rule, key, p.Exit, "returns clearer(t.id)")
+			} else {
+				c.bad(rule, key, p.Exit, "clearSession does not return clearer(t.id)", p, p.End())
+			}
+		})
+		// closure: returns Store.Clear(ctx, key)
+		c.Walk(rule, mclear1, func(p *walk.Path) {
+			ret, ok := p.ReturnDV(0)
+			if !ok {
+				return
+			}
+			key := "closure-returns-store-clear|" + fnKey(mclear1)
+			cl, ok := extractOfCall(p, ret, 0)
+			if ok && walk.Invoke(c.P, pstoreClear)(p, cl) && p.Resolve(p.Arg(cl, 1)).V == mclear1.Params[0] {
+				c.ok(rule, key, p.Exit, "returns m.Store.Clear(ctx, key)")
+			} else {
+				c.bad(rule, key, p.Exit, "the clear closure does not return Store.Clear(ctx, key)", p, p.End())
+			}
+		})
+		// every persistence.Store.Clear implementation propagates its backend's delete error
+		for _, impl := range c.P.Implementations(pstoreClear) {
+			if !c.P.InModule(impl) {
+				continue
+			}
+			if n := c.checkPropagation(rule, impl, walk.Invoke(c.P, clientDel), "Client.Del"); n == 0 {
+				c.R.Unknown(rule, "propagates|"+fnKey(impl), c.P.Pos(impl.Pos()), "store Clear never calls Client.Del")
+			}
+		}
+		// client wrappers return the command's error
+		for _, impl := range c.P.Implementations(clientDel) {
+			if !c.P.InModule(impl) {
+				continue
+			}
+			impl := impl
+			c.Walk(rule, impl, func(p *walk.Path) {
+				ret, ok := p.ReturnDV(0)
+				if !ok {
+					return
+				}
+				key := "wrapper-returns-cmd-err|" + fnKey(impl)
+				cl, ok := extractOfCall(p, ret, 0)
+				okDel := false
+				if ok && cl.C.StaticCallee() != nil && cl.C.StaticCallee().Name() == "Err" {
+					recv := p.Resolve(p.Arg(cl, 0)).V
+					for {
+						if fa, ok := recv.(*ssa.FieldAddr); ok { // promoted method through the embedded baseCmd
+							recv = fa.X
+							continue
+						}
+						break
+					}
+					if del, ok := recv.(*ssa.Call); ok && del.Call.StaticCallee() != nil && del.Call.StaticCallee().Name() == "Del" {
+						okDel = true
+					}
+				}
+				if okDel {
+					c.ok(rule, key, p.Exit, "returns Del(ctx, key).Err()")
+				} else {
+					c.bad(rule, key, p.Exit, "redis client wrapper does not return the DEL command's error", p, p.End())
+				}
+			})
+		}
+	}
+
 }
